@@ -15,7 +15,7 @@ use std::hash::{Hash, Hasher};
 use oxidd::bcdd::BCDDFunction;
 use oxidd::bdd::BDDFunction;
 use oxidd::mtbdd::MTBDDFunction;
-use oxidd::mtbdd::terminal::I64;
+use oxidd::mtbdd::terminal::{F64, I64};
 use oxidd::tdd::TDDFunction;
 use oxidd::zbdd::ZBDDFunction;
 use oxidd::{BooleanFunction, BooleanVecSet, Edge, Function, HasLevel, InnerNode, Manager, ManagerRef, Node, PseudoBooleanFunction, TVLFunction};
@@ -209,6 +209,9 @@ pub trait HKind: 'static {
     const ZBDD: bool = false;
     const OPS: &'static [OpDesc];
     fn new_manager(nodes: usize, cache: usize, threads: u32) -> MRef<Self>;
+    fn new_manager_cfg(cfg: &Cfg) -> MRef<Self> {
+        Self::new_manager(cfg.nodes, cfg.cache, cfg.threads)
+    }
     fn table(f: &Self::F) -> Result<VT, String>;
     fn build(mref: &MRef<Self>, t: &[V]) -> AllocResult<Self::F>;
     fn audit(mref: &MRef<Self>, live: &[&Self::F], rc: bool) -> AuditInfo;
@@ -331,10 +334,7 @@ bool_kind!(HBdd, BDDFunction, BKind::Bdd, AKind::Bdd, "bdd", dd::Bdd, false);
 bool_kind!(HBcdd, BCDDFunction, BKind::Bcdd, AKind::Bcdd, "bcdd", dd::Bcdd, false);
 bool_kind!(HZbdd, ZBDDFunction, BKind::Zbdd, AKind::Zbdd, "zbdd", dd::Zbdd, true);
 
-// ---- MTBDD<I64> ---------------------------------------------------------------
-
-pub struct HMtbdd;
-type MtF = MTBDDFunction<I64>;
+// ---- MTBDD -------------------------------------------------------------------------
 
 fn i64_of(t: &I64) -> V {
     match t {
@@ -344,77 +344,151 @@ fn i64_of(t: &I64) -> V {
         I64::PlusInf => i64::MAX - 1,
     }
 }
-
-impl HKind for HMtbdd {
-    type F = MtF;
-    const NAME: &'static str = "mtbdd";
-    const AK: AKind = AKind::Mtbdd;
-    const VALS: usize = 2;
-    const N0: u32 = 2;
-    const OPS: &'static [OpDesc] = &[
-        OpDesc { name: "A:=A+B", dst: 0, srcs: &[0, 1] },
-        OpDesc { name: "B:=A*C", dst: 1, srcs: &[0, 2] },
-        OpDesc { name: "C:=min(A,B)", dst: 2, srcs: &[0, 1] },
-        OpDesc { name: "A:=max(A,B)", dst: 0, srcs: &[0, 1] },
-        OpDesc { name: "B:=A-C", dst: 1, srcs: &[0, 2] },
-    ];
-    fn new_manager(nodes: usize, cache: usize, threads: u32) -> MRef<Self> {
-        oxidd::mtbdd::new_manager(nodes, 1 << 12, cache, threads)
-    }
-    fn table(f: &MtF) -> Result<VT, String> {
-        f.with_manager_shared(|m, e| walk_table(m, e, 2, &|val| 1 - val, &|t| i64_of(t)))
-    }
-    fn build(mref: &MRef<Self>, t: &[V]) -> AllocResult<MtF> {
-        mref.with_manager_shared(|m| Ok(MtF::from_edge(m, build_vt(m, t, 2, 0, &[1, 0], &|m, v| m.get_terminal(I64::Num(v)))?)))
-    }
-    fn audit(mref: &MRef<Self>, live: &[&MtF], rc: bool) -> AuditInfo {
-        mref.with_manager_shared(|m| {
-            let roots: Vec<RawEdge> = live.iter().map(|f| dd::raw_edge(m, f.as_edge(m))).collect();
-            dd::audit_raw(m, AKind::Mtbdd, &roots, None, None, rc)
-        })
-    }
-    fn init_tabs() -> [VT; 3] {
-        // x0, 2*x1 (built as table), constant 1
-        [vec![0, 1, 0, 1], vec![0, 0, 2, 2], vec![1, 1, 1, 1]]
-    }
-    fn var(mref: &MRef<Self>, v: u32) -> AllocResult<MtF> {
-        mref.with_manager_shared(|m| <MtF as PseudoBooleanFunction>::var(m, v))
-    }
-    fn var_tab(v: u32, n: u32) -> VT {
-        (0..(1usize << n)).map(|a| ((a >> v) & 1) as i64).collect()
-    }
-    fn apply(op: usize, s: &[&MtF]) -> AllocResult<MtF> {
-        match op {
-            0 => s[0].add(s[1]),
-            1 => s[0].mul(s[1]),
-            2 => PseudoBooleanFunction::min(s[0], s[1]),
-            3 => PseudoBooleanFunction::max(s[0], s[1]),
-            4 => s[0].sub(s[1]),
-            _ => unreachable!(),
-        }
-    }
-    fn apply_val(op: usize, s: &[V]) -> V {
-        // the values stay tiny (|v| < 2^40 within the depth bound), so plain integer arithmetic is exact
-        match op {
-            0 => s[0] + s[1],
-            1 => s[0] * s[1],
-            2 => s[0].min(s[1]),
-            3 => s[0].max(s[1]),
-            4 => s[0] - s[1],
-            _ => unreachable!(),
-        }
-    }
-    fn min_size(t: &[V], n: u32, order: &[u32]) -> usize {
-        min_size_plain(t, n, 2, order)
-    }
-    fn set_order(mref: &MRef<Self>, order: &[u32]) {
-        mref.with_manager_exclusive(|m| oxidd_reorder::set_var_order(m, order))
-    }
-    export_impl!();
-    fn probe_table(i: usize, n: u32) -> VT {
-        (0..(1usize << n)).map(|a| ((i >> (3 * (a % 4))) & 7) as i64 + 100 + (a / 4) as i64).collect()
+fn i64_term(v: V) -> I64 {
+    I64::Num(v)
+}
+fn i64_enc(i: i64) -> V {
+    i
+}
+fn i64_val(op: usize, s: &[V]) -> V {
+    // the values stay tiny (|v| < 2^40 within the depth bound), so plain integer arithmetic is exact
+    match op {
+        0 => s[0] + s[1],
+        1 => s[0] * s[1],
+        2 => s[0].min(s[1]),
+        3 => s[0].max(s[1]),
+        4 => s[0] - s[1],
+        _ => unreachable!(),
     }
 }
+
+/// F64 values are kept in the tables as the bit pattern of the *normalised* number (-0.0 = 0.0,
+/// one NaN): two handles denote the same function iff these tables are equal.
+fn f64_norm(x: f64) -> f64 {
+    if x.is_nan() {
+        f64::NAN
+    } else if x == 0.0 {
+        0.0
+    } else {
+        x
+    }
+}
+fn f64_of(t: &F64) -> V {
+    f64_norm(f64::from(*t)).to_bits() as i64
+}
+fn f64_term(v: V) -> F64 {
+    F64::from(f64::from_bits(v as u64))
+}
+fn f64_enc(i: i64) -> V {
+    (i as f64).to_bits() as i64
+}
+fn f64_val(op: usize, s: &[V]) -> V {
+    let (a, b) = (f64::from_bits(s[0] as u64), f64::from_bits(s[1] as u64));
+    let r = match op {
+        0 => a + b,
+        1 => a * b,
+        2 => if b < a { b } else { a },
+        3 => if b > a { b } else { a },
+        4 => a - b,
+        _ => unreachable!(),
+    };
+    f64_norm(r).to_bits() as i64
+}
+
+macro_rules! mt_hkind {
+    ($name:ident, $str:literal, $t:ty, $n0:expr, $init:expr, $of:path, $term:path, $enc:path, $val:path, $ops:expr, $codes:expr) => {
+        pub struct $name;
+        impl HKind for $name {
+            type F = MTBDDFunction<$t>;
+            const NAME: &'static str = $str;
+            const AK: AKind = AKind::Mtbdd;
+            const VALS: usize = 2;
+            const N0: u32 = $n0;
+            const OPS: &'static [OpDesc] = $ops;
+            fn new_manager(nodes: usize, cache: usize, threads: u32) -> MRef<Self> {
+                oxidd::mtbdd::new_manager(nodes, 1 << 12, cache, threads)
+            }
+            fn new_manager_cfg(cfg: &Cfg) -> MRef<Self> {
+                oxidd::mtbdd::new_manager(cfg.nodes, cfg.terms, cfg.cache, cfg.threads)
+            }
+            fn table(f: &Self::F) -> Result<VT, String> {
+                f.with_manager_shared(|m, e| walk_table(m, e, 2, &|val| 1 - val, &|t| $of(t)))
+            }
+            fn build(mref: &MRef<Self>, t: &[V]) -> AllocResult<Self::F> {
+                mref.with_manager_shared(|m| Ok(<Self::F>::from_edge(m, build_vt(m, t, 2, 0, &[1, 0], &|m, v| m.get_terminal($term(v)))?)))
+            }
+            fn audit(mref: &MRef<Self>, live: &[&Self::F], rc: bool) -> AuditInfo {
+                mref.with_manager_shared(|m| {
+                    let roots: Vec<RawEdge> = live.iter().map(|f| dd::raw_edge(m, f.as_edge(m))).collect();
+                    dd::audit_raw(m, AKind::Mtbdd, &roots, None, None, rc)
+                })
+            }
+            fn init_tabs() -> [VT; 3] {
+                let t: [&[i64]; 3] = $init;
+                [t[0].iter().map(|&i| $enc(i)).collect(), t[1].iter().map(|&i| $enc(i)).collect(), t[2].iter().map(|&i| $enc(i)).collect()]
+            }
+            fn var(mref: &MRef<Self>, v: u32) -> AllocResult<Self::F> {
+                mref.with_manager_shared(|m| <Self::F as PseudoBooleanFunction>::var(m, v))
+            }
+            fn var_tab(v: u32, n: u32) -> VT {
+                (0..(1usize << n)).map(|a| $enc(((a >> v) & 1) as i64)).collect()
+            }
+            fn apply(op: usize, s: &[&Self::F]) -> AllocResult<Self::F> {
+                const CODES: &[usize] = $codes;
+                match CODES[op] {
+                    0 => s[0].add(s[1]),
+                    1 => s[0].mul(s[1]),
+                    2 => PseudoBooleanFunction::min(s[0], s[1]),
+                    3 => PseudoBooleanFunction::max(s[0], s[1]),
+                    4 => s[0].sub(s[1]),
+                    _ => unreachable!(),
+                }
+            }
+            fn apply_val(op: usize, s: &[V]) -> V {
+                const CODES: &[usize] = $codes;
+                $val(CODES[op], s)
+            }
+            fn min_size(t: &[V], n: u32, order: &[u32]) -> usize {
+                min_size_plain(t, n, 2, order)
+            }
+            fn set_order(mref: &MRef<Self>, order: &[u32]) {
+                mref.with_manager_exclusive(|m| oxidd_reorder::set_var_order(m, order))
+            }
+            export_impl!();
+            fn probe_table(i: usize, n: u32) -> VT {
+                (0..(1usize << n)).map(|a| $enc(((i >> (3 * (a % 4))) & 7) as i64 + 100 + (a / 4) as i64)).collect()
+            }
+        }
+    };
+}
+
+const MT_OPS: &[OpDesc] = &[
+    OpDesc { name: "A:=A+B", dst: 0, srcs: &[0, 1] },
+    OpDesc { name: "B:=A*C", dst: 1, srcs: &[0, 2] },
+    OpDesc { name: "C:=min(A,B)", dst: 2, srcs: &[0, 1] },
+    OpDesc { name: "A:=max(A,B)", dst: 0, srcs: &[0, 1] },
+    OpDesc { name: "B:=A-C", dst: 1, srcs: &[0, 2] },
+];
+const MT_CODES: &[usize] = &[0, 1, 2, 3, 4];
+/// operations on two fixed one-variable operands whose results are bare terminals, plus a doubling
+/// step that keeps asking for new terminal values
+const MTK_OPS: &[OpDesc] = &[
+    OpDesc { name: "C:=A+B", dst: 2, srcs: &[0, 1] },
+    OpDesc { name: "C:=A*B", dst: 2, srcs: &[0, 1] },
+    OpDesc { name: "C:=min(A,B)", dst: 2, srcs: &[0, 1] },
+    OpDesc { name: "C:=C+C", dst: 2, srcs: &[2, 2] },
+    OpDesc { name: "C:=C-A", dst: 2, srcs: &[2, 0] },
+];
+const MTK_CODES: &[usize] = &[0, 1, 2, 0, 4];
+
+// x0, 2*x1 (built as table), constant 1
+mt_hkind!(HMtbdd, "mtbdd", I64, 2, [&[0, 1, 0, 1], &[0, 0, 2, 2], &[1, 1, 1, 1]], i64_of, i64_term, i64_enc, i64_val, MT_OPS, MT_CODES);
+// one variable, mostly constants: results are often bare terminals (terminal table bookkeeping)
+mt_hkind!(HMtbddC, "mtbddc", I64, 1, [&[3, 3], &[4, 4], &[0, 1]], i64_of, i64_term, i64_enc, i64_val, MT_OPS, MT_CODES);
+// A = x0 + 1, B = 2 - x0 (A+B, A*B, min(A,B) are constants), C = 0
+mt_hkind!(HMtbddK, "mtbddk", I64, 1, [&[1, 2], &[2, 1], &[0, 0]], i64_of, i64_term, i64_enc, i64_val, MTK_OPS, MTK_CODES);
+// F64 terminals: x0, (-1, -1, 2, 2), constant -1: products reach -0.0
+mt_hkind!(HMtbddF, "mtbddf", F64, 2, [&[0, 1, 0, 1], &[-1, -1, 2, 2], &[-1, -1, -1, -1]], f64_of, f64_term, f64_enc, f64_val, MT_OPS, MT_CODES);
 
 // ---- TDD ------------------------------------------------------------------------
 
@@ -554,20 +628,34 @@ pub enum Prop {
     C06,
 }
 
-#[derive(Clone, Debug)]
+#[derive(Clone, Copy, Debug)]
 pub struct Cfg {
     pub nodes: usize,
     pub cache: usize,
     pub threads: u32,
+    /// capacity of the terminal table (MTBDD kinds)
+    pub terms: usize,
+    /// every action is issued from inside `with_manager_shared` of another manager, so the calling
+    /// thread's node-store state is bound to that other manager
+    pub nested: bool,
 }
 
 impl Cfg {
     pub fn parse(s: &str) -> Cfg {
-        // "n64c16t1"
+        // "n64c16t1", optionally followed by "k<terminals>" and/or "x" (nested)
         let s = s.trim_start_matches('n');
         let (n, rest) = s.split_once('c').unwrap();
-        let (c, t) = rest.split_once('t').unwrap();
-        Cfg { nodes: n.parse().unwrap(), cache: c.parse().unwrap(), threads: t.parse().unwrap() }
+        let (c, rest) = rest.split_once('t').unwrap();
+        let nested = rest.ends_with('x');
+        let rest = rest.trim_end_matches('x');
+        let (t, k) = match rest.split_once('k') {
+            Some((t, k)) => (t, k.parse().unwrap()),
+            None => (rest, 1 << 12),
+        };
+        Cfg { nodes: n.parse().unwrap(), cache: c.parse().unwrap(), threads: t.parse().unwrap(), terms: k, nested }
+    }
+    pub fn show(&self) -> String {
+        format!("nodes={}, cache={}{}{}", self.nodes, self.cache, if self.terms != 1 << 12 { format!(", terminals={}", self.terms) } else { String::new() }, if self.nested { ", nested in another manager's session" } else { "" })
     }
 }
 
@@ -680,7 +768,7 @@ pub struct IState<K: HKind> {
 
 pub fn new_istate<K: HKind>(cfg: &Cfg) -> IState<K> {
     crate::proto::throttle_threads();
-    let mref = K::new_manager(cfg.nodes, cfg.cache, cfg.threads);
+    let mref = K::new_manager_cfg(cfg);
     mref.with_manager_exclusive(|m| {
         m.add_vars(K::N0);
     });
@@ -773,11 +861,18 @@ fn hash_of<T: Hash>(x: &T) -> u64 {
 
 /// capacity probe: number of inner nodes that can exist before OutOfMemory
 pub fn probe<K: HKind>(mref: &MRef<K>, n: u32) -> usize {
-    let mut held = vec![];
+    probe_audited::<K>(mref, n).0
+}
+
+/// as `probe`, plus the auditor's verdict (structure and reference counts) at the moment the store
+/// is full and every probe diagram is alive, and whether all of them still denote their tables
+pub fn probe_audited<K: HKind>(mref: &MRef<K>, n: u32) -> (usize, Vec<String>) {
+    let mut held: Vec<(VT, K::F)> = vec![];
     let mut i = 0;
     let r = loop {
-        match K::build(mref, &K::probe_table(i, n)) {
-            Ok(f) => held.push(f),
+        let t = K::probe_table(i, n);
+        match K::build(mref, &t) {
+            Ok(f) => held.push((t, f)),
             Err(_) => break mref.with_manager_shared(|m| m.num_inner_nodes()),
         }
         i += 1;
@@ -785,9 +880,19 @@ pub fn probe<K: HKind>(mref: &MRef<K>, n: u32) -> usize {
             break usize::MAX;
         }
     };
+    let refs: Vec<&K::F> = held.iter().map(|x| &x.1).collect();
+    let mut errs = K::audit(mref, &refs, true).errors;
+    for (t, f) in &held {
+        match K::table(f) {
+            Ok(x) if &x == t => {}
+            other => errs.push(format!("a probe diagram built for {} reads back as {:?}", short(t), other.map(|v| short(&v)))),
+        }
+    }
+    errs.truncate(3);
+    drop(refs);
     drop(held);
     mref.with_manager_shared(|m| m.gc());
-    r
+    (r, errs)
 }
 
 pub struct Engine {
@@ -911,7 +1016,7 @@ pub fn explore<K: HKind>(ctx: &mut Ctx, prop: Prop, cfg: &Cfg, prefix: &[usize],
             ms.step::<K>(a);
         }
     }
-    let baseline_probe: std::cell::RefCell<std::collections::BTreeMap<u32, usize>> = Default::default();
+    let baseline_probe: std::cell::RefCell<std::collections::BTreeMap<Vec<u32>, usize>> = Default::default();
     fn rec<K: HKind>(
         ctx: &mut Ctx,
         prop: Prop,
@@ -920,7 +1025,7 @@ pub fn explore<K: HKind>(ctx: &mut Ctx, prop: Prop, cfg: &Cfg, prefix: &[usize],
         prev: &mut Vec<usize>,
         depth: usize,
         na: usize,
-        base: &std::cell::RefCell<std::collections::BTreeMap<u32, usize>>,
+        base: &std::cell::RefCell<std::collections::BTreeMap<Vec<u32>, usize>>,
     ) {
         if seq.len() == depth {
             let r = std::panic::catch_unwind(std::panic::AssertUnwindSafe(|| run_one::<K>(ctx, prop, cfg, seq, prev, base)));
@@ -934,7 +1039,7 @@ pub fn explore<K: HKind>(ctx: &mut Ctx, prop: Prop, cfg: &Cfg, prefix: &[usize],
                     ctx.viol(
                         attrs(&[("kind", K::NAME), ("panic", "1"), ("site", &site)]),
                         json!({"kind": K::NAME, "nodes": cfg.nodes, "cache": cfg.cache, "threads": cfg.threads, "actions": seq, "action_names": names}),
-                        &format!("{:?} {} history {:?} (nodes={}, cache={}): panic at {site}: {}", prop, K::NAME, names, cfg.nodes, cfg.cache, msg.lines().next().unwrap_or("")),
+                        &format!("{:?} {} history {:?} ({}): panic at {site}: {}", prop, K::NAME, names, cfg.show(), msg.lines().next().unwrap_or("")),
                     );
                 }
             }
@@ -960,16 +1065,24 @@ pub fn explore<K: HKind>(ctx: &mut Ctx, prop: Prop, cfg: &Cfg, prefix: &[usize],
 fn viol<K: HKind>(ctx: &mut Ctx, prop: Prop, cfg: &Cfg, seq: &[usize], step: usize, class: &str, msg: &str) {
     let names: Vec<String> = seq.iter().map(|&a| action_name::<K>(a)).collect();
     let a = seq[step.min(seq.len() - 1)];
-    let case = json!({"kind": K::NAME, "nodes": cfg.nodes, "cache": cfg.cache, "threads": cfg.threads, "actions": seq, "action_names": names,
+    let case = json!({"kind": K::NAME, "nodes": cfg.nodes, "cache": cfg.cache, "threads": cfg.threads, "terminals": cfg.terms, "nested": cfg.nested, "actions": seq, "action_names": names,
         "failed_after_step": step, "initial_registers": K::init_tabs().iter().map(|t| short(t)).collect::<Vec<_>>()});
     ctx.viol(
         attrs(&[("kind", K::NAME), ("class", class), ("last_action", &action_name::<K>(a))]),
         case,
-        &format!("{:?} {} history {:?} (nodes={}, cache={}): after step {step}: {msg}", prop, K::NAME, names, cfg.nodes, cfg.cache),
+        &format!("{:?} {} history {:?} ({}): after step {step}: {msg}", prop, K::NAME, names, cfg.show()),
     );
 }
 
-fn run_one<K: HKind>(ctx: &mut Ctx, prop: Prop, cfg: &Cfg, seq: &[usize], prev: &[usize], base: &std::cell::RefCell<std::collections::BTreeMap<u32, usize>>) {
+/// run `f` from inside a shared session of the other manager (if any)
+fn nest<K: HKind, R>(outer: &Option<MRef<K>>, f: impl FnOnce() -> R) -> R {
+    match outer {
+        Some(o) => o.with_manager_shared(|_| f()),
+        None => f(),
+    }
+}
+
+fn run_one<K: HKind>(ctx: &mut Ctx, prop: Prop, cfg: &Cfg, seq: &[usize], prev: &[usize], base: &std::cell::RefCell<std::collections::BTreeMap<Vec<u32>, usize>>) {
     let lcp = seq.iter().zip(prev.iter()).take_while(|(a, b)| a == b).count();
     ctx.count("evaluations", 1);
     ctx.count("executions", 1);
@@ -977,6 +1090,7 @@ fn run_one<K: HKind>(ctx: &mut Ctx, prop: Prop, cfg: &Cfg, seq: &[usize], prev: 
         return run_one_c06::<K>(ctx, cfg, seq, lcp);
     }
     let mut st = new_istate::<K>(cfg);
+    let outer: Option<MRef<K>> = if cfg.nested { Some(K::new_manager(64, 16, 1)) } else { None };
     let mut ms = MState::init::<K>();
     let mut nontrivial = false;
     for (i, &a) in seq.iter().enumerate() {
@@ -987,7 +1101,7 @@ fn run_one<K: HKind>(ctx: &mut Ctx, prop: Prop, cfg: &Cfg, seq: &[usize], prev: 
             break;
         }
         let mut gc_ret = None;
-        let out = istep::<K>(&mut st, &ms, a, &mut gc_ret);
+        let out = nest::<K, _>(&outer, || istep::<K>(&mut st, &ms, a, &mut gc_ret));
         match out {
             StepOut::Ok => ms.step::<K>(a),
             StepOut::Oom => {
@@ -1018,10 +1132,12 @@ fn run_one<K: HKind>(ctx: &mut Ctx, prop: Prop, cfg: &Cfg, seq: &[usize], prev: 
     if prop == Prop::C05 {
         // teardown: everything dropped => initial node count, full capacity available again
         let n = ms.n;
-        st.regs = [None, None, None];
-        let left = st.mref.with_manager_shared(|m| {
-            m.gc();
-            m.num_inner_nodes()
+        let left = nest::<K, _>(&outer, || {
+            st.regs = [None, None, None];
+            st.mref.with_manager_shared(|m| {
+                m.gc();
+                m.num_inner_nodes()
+            })
         });
         if left != K::initial_nodes(n) {
             viol::<K>(ctx, prop, cfg, seq, seq.len() - 1, "nodes_left_after_teardown", &format!("{left} inner nodes remain after dropping all handles and gc, initial count is {}", K::initial_nodes(n)));
@@ -1037,15 +1153,22 @@ fn run_one<K: HKind>(ctx: &mut Ctx, prop: Prop, cfg: &Cfg, seq: &[usize], prev: 
         if cfg.nodes <= 64 && cfg.threads == 1 {
             let b = {
                 let mut bm = base.borrow_mut();
-                *bm.entry(n).or_insert_with(|| {
-                    let fresh = K::new_manager(cfg.nodes, cfg.cache, cfg.threads);
+                // same number of variables and same order (which diagram hits the limit of a small
+                // terminal table first depends on the order)
+                let order = cur_order::<K>(&st.mref);
+                *bm.entry(order.clone()).or_insert_with(|| {
+                    let fresh = K::new_manager_cfg(cfg);
                     fresh.with_manager_exclusive(|m| {
                         m.add_vars(n);
                     });
+                    K::set_order(&fresh, &order);
                     probe::<K>(&fresh, n)
                 })
             };
-            let p = probe::<K>(&st.mref, n);
+            let (p, perrs) = nest::<K, _>(&outer, || probe_audited::<K>(&st.mref, n));
+            for e in perrs {
+                viol::<K>(ctx, prop, cfg, seq, seq.len() - 1, "store_corrupt_when_refilled", &format!("after the history, all handles dropped and gc, the store was filled again: {e}"));
+            }
             ctx.outcome(&format!("probe={p}"));
             if p != b {
                 viol::<K>(ctx, prop, cfg, seq, seq.len() - 1, "capacity_lost", &format!("after the history only {p} inner nodes can be created before OutOfMemory, a fresh manager allows {b}"));
@@ -1059,10 +1182,10 @@ fn run_one<K: HKind>(ctx: &mut Ctx, prop: Prop, cfg: &Cfg, seq: &[usize], prev: 
 /// operation is re-issued once and must return the same handle.
 fn run_one_c06<K: HKind>(ctx: &mut Ctx, cfg: &Cfg, seq: &[usize], lcp: usize) {
     let caps: &[usize] = if ctx.thorough() { &[1, 2, 16, 4096] } else { &[1, 16, 4096] };
-    let mut sts: Vec<IState<K>> = caps.iter().map(|&c| new_istate::<K>(&Cfg { nodes: cfg.nodes, cache: c, threads: cfg.threads })).collect();
+    let mut sts: Vec<IState<K>> = caps.iter().map(|&c| new_istate::<K>(&Cfg { cache: c, ..*cfg })).collect();
     // warmed-up manager: unrelated operations first (results dropped)
     {
-        let mut w = new_istate::<K>(&Cfg { nodes: cfg.nodes, cache: 16, threads: cfg.threads });
+        let w = new_istate::<K>(&Cfg { cache: 16, ..*cfg });
         let t = K::init_tabs();
         let regs: Vec<K::F> = t.iter().map(|x| K::build(&w.mref, x).unwrap()).collect();
         let mut tmp: Vec<K::F> = vec![];
@@ -1080,9 +1203,7 @@ fn run_one_c06<K: HKind>(ctx: &mut Ctx, cfg: &Cfg, seq: &[usize], lcp: usize) {
         }
         drop(tmp);
         drop(regs);
-        w.regs = [None, None, None];
-        let t = K::init_tabs();
-        w.regs = [Some(K::build(&w.mref, &t[0]).unwrap()), Some(K::build(&w.mref, &t[1]).unwrap()), Some(K::build(&w.mref, &t[2]).unwrap())];
+        // w.regs still hold the initial functions
         sts.push(w);
     }
     let mut ms = MState::init::<K>();
@@ -1119,7 +1240,10 @@ fn run_one_c06<K: HKind>(ctx: &mut Ctx, cfg: &Cfg, seq: &[usize], lcp: usize) {
                 }
             } else {
                 let mut g = None;
-                let _ = istep::<K>(st, &ms, a, &mut g);
+                if let StepOut::Oom = istep::<K>(st, &ms, a, &mut g) {
+                    // add_vars succeeded but the handle of the new variable could not be created
+                    ooms += 1;
+                }
             }
         }
         if ooms == 0 {
@@ -1171,6 +1295,9 @@ pub fn run_shard(ctx: &mut Ctx, prop: Prop, depth: usize) {
         "bcdd" => ctx.group(&label, |ctx| explore::<HBcdd>(ctx, prop, &cfg, &prefix, depth)),
         "zbdd" => ctx.group(&label, |ctx| explore::<HZbdd>(ctx, prop, &cfg, &prefix, depth)),
         "mtbdd" => ctx.group(&label, |ctx| explore::<HMtbdd>(ctx, prop, &cfg, &prefix, depth)),
+        "mtbddc" => ctx.group(&label, |ctx| explore::<HMtbddC>(ctx, prop, &cfg, &prefix, depth)),
+        "mtbddk" => ctx.group(&label, |ctx| explore::<HMtbddK>(ctx, prop, &cfg, &prefix, depth)),
+        "mtbddf" => ctx.group(&label, |ctx| explore::<HMtbddF>(ctx, prop, &cfg, &prefix, depth)),
         "tdd" => ctx.group(&label, |ctx| explore::<HTdd>(ctx, prop, &cfg, &prefix, depth)),
         _ => panic!("bad kind"),
     }
